@@ -42,7 +42,9 @@ class QuaHoldList(HoldList[QuaHold], QuaNoteList[QuaHold]):
         return QuaHoldList(df)
 
     def to_yaml(self):
-        df = self.df.copy()
+        # Only the fields of the format: a frame may carry user columns
+        fields = ("offset", "column", "length", "keysounds")
+        df = self.df.loc[:, [c for c in self.df.columns if c in fields]].copy()
         df["EndTime"] = df["offset"] + df["length"]
         df = df.drop("length", axis=1)
         df.column += 1
